@@ -15,7 +15,7 @@ exactly when the count reaches the end value; a stopped mode's delays never fire
 import json
 from functools import partial
 
-from harness.common import leanproc
+from harness.common import leanproc, mpfleak
 from harness.common.shrink import ddmin
 from harness.common.util import InfraError
 from harness.common.vmachine import VMachine, BootError
@@ -926,8 +926,12 @@ def run(ctx):
         for i in range(ctx.n(800, 9000)):
             r = ctx.rng("delay", i)
             check_case(ctx, gen_delay_case(r, kinds[i % 4]), model)
+            if i % 200 == 199:
+                mpfleak.release()
         for i in range(ctx.n(450, 5000)):
             check_timer_case(ctx, gen_timer_case(ctx.rng("timer", i)))
+            if i % 200 == 199:
+                mpfleak.release()
     finally:
         if model is not None:
             model.close()
